@@ -79,8 +79,8 @@ def kStruct : Nat := 25
 
 def Ty.kind : Ty → Nat
   | .bool => 1
-  | .int k => k
-  | .flt k => k
+  | .int k => if 2 ≤ k ∧ k ≤ 12 then k else 2
+  | .flt k => if k = 13 then 13 else 14
   | .str _ => kString
   | .ptrTo _ => kPtr
   | .strct _ => kStruct
